@@ -406,6 +406,7 @@ def subprocess_cases(part, lo, hi):
                     for pick in (0, 5):
                         os.environ["SUGAR_MODEL_PICK"] = str(pick)
                         os.environ["SUGAR_MODEL_ORDER"] = str(pick)
+                        os.environ["SUGAR_MODEL_STDERR"] = "1" if pick else "0"  # a solver that is chatty on stderr
                         s, vs = build()
                         case = {"form": "subprocess", "kind": kind, "src": src, "goal": goal, "backend": name, "pick": pick}
                         part.count("executions")
@@ -439,6 +440,7 @@ def subprocess_cases(part, lo, hi):
             _subproc.psutil = saved_ps[1]
         os.environ.pop("SUGAR_MODEL_PICK", None)
         os.environ.pop("SUGAR_MODEL_ORDER", None)
+        os.environ.pop("SUGAR_MODEL_STDERR", None)
 
 
 def run_scale(part, n):
@@ -580,8 +582,71 @@ def values_builder(V, shape):
     return build
 
 
+def poison_programs():
+    """Programs whose emission fails half-way (an operand no backend can render, nested inside a constraint): the failure
+    itself is not judged here - what the NEXT, valid program is turned into is."""
+    from cspuz import Solver, graph
+    from cspuz.expr import BoolExpr, IntExpr, Op
+
+    def native_float(s):
+        g = graph.Graph(3)
+        g.add_edge(0, 1)
+        g.add_edge(1, 2)
+        x = s.bool_array(3)
+        graph.active_vertices_connected(s, [x[0], 0.5, x[2]], g, use_graph_primitive=True)
+
+    def string_operand(s):
+        b = s.bool_array(2)
+        s.ensure(BoolExpr(Op.OR, [b[0], BoolExpr(Op.AND, [b[1], "oops"])]))
+
+    def none_in_sum(s):
+        i = s.int_array(2, 0, 2)
+        s.ensure(BoolExpr(Op.EQ, [IntExpr(Op.ADD, [i[0], IntExpr(Op.ADD, [i[1], None])]), 2]))
+
+    def foreign_variable(s):
+        other = Solver()
+        other.bool_array(7)
+        y = other.bool_var()
+        b = s.bool_var()
+        s.ensure(b | (b & y))
+
+    return [("native-float", native_float), ("string-operand", string_operand), ("none-in-sum", none_in_sum), ("foreign-variable", foreign_variable)]
+
+
+def run_after_error(part, wire, pidx):
+    """E2 flavour: a rejected emission, then valid programs through every backend name in the same process."""
+    from cspuz import Solver
+
+    pname, poison = poison_programs()[pidx]
+    followers = [("bool", "b0 | b1", "pos"), ("bool", "b0.then(i0 == i1)", "neg"), ("int", "b0.cond(i0, 1) + i1", 2), ("bool", "alldifferent(i0, i1, 1)", "pos")]
+    for bi, name in enumerate(NAMES):
+        for api in ("find_answer", "solve"):
+            s = Solver()
+            try:
+                poison(s)
+                wire.tape = tape.Tape([]) if hasattr(tape, "Tape") else None
+                wire.calls = []
+                getattr(s, api)(backend=name)
+                part.count("poison_accepted")  # not judged: the poison only has to leave nothing behind
+            except tape.ReplayDivergence:
+                raise
+            except Exception:
+                part.count("poison_rejected")
+            for kind, src, goal in followers:
+                case = {"form": "term", "kind": kind, "src": src, "goal": goal, "after_error": pname, "poisoned_backend": name, "poisoned_api": api}
+                run_program(part, wire, term_builder(kind, src, goal), case, bi, False)
+
+
 def worker(shard, part):
     what = shard[0]
+    if what == "after-error":
+        wire = c02.WireEnv()
+        wire.install()
+        try:
+            run_after_error(part, wire, shard[1])
+        finally:
+            wire.uninstall()
+        return
     if what == "scale":
         old = sys.getrecursionlimit()
         try:
@@ -658,6 +723,8 @@ def main(tier, seed, only=None):
         shards.append(("native", lo, min(nn, lo + 40)))
     for V in VALUES:
         shards.append(("values", V))
+    for pidx in range(len(poison_programs())):
+        shards.append(("after-error", pidx))
     shards.append(("replies", 2))
     shards.append(("replies", 3))
     ns = len(_TERMS["subproc"])
@@ -679,7 +746,7 @@ def main(tier, seed, only=None):
         "16) key subsets with all reply-line orders (k<=1); every captured text parsed strictly and compared with the cspuz program "
         "on all 36 assignments.  Replies: all typings of <=3 variables x all assignments over {T,F}/{-12,-1,0,7,105} x all line "
         "orders (finder), all key subsets x decided subsets x values x orders (deduction), plus UNSAT/unsat.  %d programs also "
-        "through the real subprocess pipe with the reference solver as executable.  Value sweep: 3 three-variable programs around each of %d "
+        "through the real subprocess pipe with the reference solver as executable.  After-error histories: 4 programs whose emission fails half-way (float / string / None operand nested in a constraint, a variable of another Solver) through each backend name and API, each followed by 4 valid programs through all five names in the same process; the subprocess route also with a solver that writes a diagnostic to stderr before its reply.  Value sweep: 3 three-variable programs around each of %d "
         "integers (negative, beyond 256, beyond 2^31) with every key subset, model choice (<= 1 deviation on the refinement route) and reply order.  Scale family (not exhaustive): programs with 30..300 (thorough "
         "1500) interleaved variables, flat operators and chains over all of them, checked on 4 assignments, and replies naming every variable."
         % ("MIN k=2" if tier == "quick" else "RED k=2", len(_TERMS["native"]), len(_TERMS["subproc"]), len(VALUES)),
@@ -720,7 +787,11 @@ def replay(case):
     wire = c02.WireEnv()
     wire.install()
     try:
-        if case["form"] == "values":
+        if case.get("after_error"):
+            pidx = [n for n, _ in poison_programs()].index(case["after_error"])
+            run_after_error(part, wire, pidx)
+            part.violations = [v for v in part.violations if all(v.case.get(k) == case.get(k) for k in ("src", "goal", "poisoned_backend", "poisoned_api", "backend", "mode"))]
+        elif case["form"] == "values":
             run_program(part, wire, values_builder(case["V"], case["shape"]), {"form": "values", "V": case["V"], "shape": case["shape"]}, 0, True)
         elif case["form"] == "term":
             run_program(part, wire, term_builder(case["kind"], case["src"], case["goal"]), {"form": "term", "kind": case["kind"], "src": case["src"], "goal": case["goal"]}, 0, True)
